@@ -379,6 +379,140 @@ func init() {
 				}
 				c.Obs = append(c.Obs, o)
 			}
-		}, func(c *Ctx) { ruleC04c(c, "C04.c") }},
+		}, func(c *Ctx) { ruleC04c(c, "C04.c") }, func(c *Ctx) { ruleC04d(c, "C04.d") }, func(c *Ctx) { ruleC04e(c, "C04.e") }},
 	})
+}
+
+// ruleC04d: the read path does not touch the store's files.
+func ruleC04d(c *Ctx, rule string) {
+	c.describe(rule, "reg (who-may-call): functions that rename, remove or rewrite a table's files (fileStore.markCorrupted, os.Rename, os.Remove*, os.Create/OpenFile for writing, ioutil.WriteFile) are called only from the flush/open/cleanup side — never from (*rowStore).iterate, (*fileStore).iterate, (*table).iterate or what they call in package zenodb: a query whose scan fails (its deadline expires) must leave the store as it found it")
+	roots := []string{"(*z.rowStore).iterate", "(*z.table).iterate", "(*z.fileStore).iterate"}
+	set := map[*ssa.Function]bool{}
+	var frontier []*ssa.Function
+	for _, r := range roots {
+		if f := c.need(rule, r); f != nil {
+			set[f] = true
+			frontier = append(frontier, f)
+		}
+	}
+	for d := 0; d < 4 && len(frontier) > 0; d++ {
+		var next []*ssa.Function
+		for _, f := range frontier {
+			for _, h := range withAnon(f) {
+				for _, call := range calls(h) {
+					if _, isDefer := call.(*ssa.Defer); isDefer {
+						// deferred bookkeeping still belongs to the read path
+					}
+					g := call.Common().StaticCallee()
+					if g != nil && inModule(g) && pkgOf(g) == "z" && !set[g] && len(g.Blocks) > 0 {
+						set[g] = true
+						next = append(next, g)
+					}
+				}
+			}
+		}
+		frontier = next
+	}
+	mutators := map[string]bool{
+		"(*z.fileStore).markCorrupted": true, "os.Rename": true, "os.Remove": true, "os.RemoveAll": true,
+		"os.Create": true, "os.OpenFile": true, "io/ioutil.WriteFile": true, "os.WriteFile": true, "io/ioutil.TempFile": true, "os.Truncate": true, "os.Mkdir": true, "os.MkdirAll": true,
+	}
+	var fns []*ssa.Function
+	for f := range set {
+		fns = append(fns, f)
+	}
+	sort.Slice(fns, func(i, j int) bool { return fns[i].Pos() < fns[j].Pos() })
+	bad := 0
+	for _, f := range fns {
+		for _, h := range withAnon(f) {
+			for _, call := range calls(h) {
+				if mutators[calleeName(call)] {
+					if calleeName(call) == "os.OpenFile" {
+						// read-only open (flag constant without write/create/truncate/append bits)
+						if k, isK := constInt(call.Common().Args[1]); isK && k&(0x1|0x2|0x40|0x200|0x400) == 0 {
+							continue
+						}
+					}
+					bad++
+					c.touch(h)
+					c.bad(rule, stableName(f)+" (read path) calls "+calleeName(call), call.Pos(), "a function on the query path changes the table's files: a scan that ends with an error (e.g. core.ErrDeadlineExceeded from the scan guard) moves the healthy file store away, later queries silently see memstore rows only and the next flush writes a file without the flushed data")
+				}
+			}
+		}
+	}
+	if bad == 0 {
+		c.ok(rule, "the read path ("+itoa(len(fns))+" functions of package zenodb reachable from the iterate entry points) never changes files", token.NoPos, "no call to a file-mutating function")
+	}
+	c.floor(rule, "functions on the read path", len(fns), 3)
+}
+
+// ruleC04e: planning and evaluating a query never rewrites the table's own
+// expression objects.
+func ruleC04e(c *Ctx, rule string) {
+	c.describe(rule, "reg: no method of an expression type in package expr assigns a field of its receiver, except decoding (DecodeMsgpack) — the planner hands out the table's own expression objects, so a method that rewrites its receiver in place (e.g. DeAggregate building its result in the receiver) changes the stored table definition at plan time: widths and names of table fields change under a running database")
+	n := 0
+	var names []string
+	byName := map[string]*ssa.Function{}
+	for fn := range c.P.AllFns {
+		if fn.Signature.Recv() == nil || fn.Synthetic != "" || len(fn.Blocks) == 0 || pkgOf(fn) != "z/expr" || fn.Parent() != nil {
+			continue
+		}
+		if _, isPtr := fn.Signature.Recv().Type().(*types.Pointer); !isPtr {
+			continue
+		}
+		nm := stableName(fn)
+		if _, dup := byName[nm]; !dup {
+			byName[nm] = fn
+			names = append(names, nm)
+		}
+	}
+	sort.Strings(names)
+	for _, nm := range names {
+		fn := byName[nm]
+		if fn.Name() == "DecodeMsgpack" {
+			continue
+		}
+		n++
+		recv := fn.Params[0]
+		bad := ""
+		for _, f := range withAnon(fn) {
+			for _, in := range instrs(f) {
+				st, ok := in.(*ssa.Store)
+				if !ok {
+					continue
+				}
+				fa, ok := st.Addr.(*ssa.FieldAddr)
+				if !ok {
+					continue
+				}
+				base := strip(fa.X)
+				if fv, isFV := base.(*ssa.FreeVar); isFV {
+					base = cellRoot(fv)
+				}
+				// direct, or through a local alias of the receiver (result := e)
+				if base == ssa.Value(recv) || resolveVal(c.P, base, fn) == ssa.Value(recv) {
+					if fld := fieldVar(fa.X.Type(), fa.Field); fld != nil {
+						bad = fld.Name() + " at " + c.P.Pos(st.Pos())
+					}
+				}
+				if ph, isPhi := base.(*ssa.Phi); isPhi {
+					for _, e := range ph.Edges {
+						if e == ssa.Value(recv) {
+							if fld := fieldVar(fa.X.Type(), fa.Field); fld != nil {
+								bad = fld.Name() + " at " + c.P.Pos(st.Pos())
+							}
+						}
+					}
+				}
+			}
+		}
+		if bad != "" {
+			c.touch(fn)
+			c.bad(rule, nm+" does not assign its receiver's fields", fn.Pos(), "the method rewrites field "+bad+" of the expression it is called on: expressions are shared between the table definition and every query plan, so calling it while planning a query changes the table's field (width, name, operands) for ingest, flush and all later queries")
+		}
+	}
+	if n > 0 {
+		c.ok(rule, itoa(n)+" pointer-receiver methods of package expr examined", token.NoPos, "receiver fields are assigned only by DecodeMsgpack (and reported individually otherwise)")
+	}
+	c.floor(rule, "pointer-receiver methods in package expr", n, 60)
 }
